@@ -1486,6 +1486,17 @@ SPECIAL = {
 }
 SPECIAL_METHODS = {}      # function object of a classmethod -> model(it, fr, cls, *args)
 
+
+def sp_sys_exit(it, fr, code=None):
+    e = SystemExit(code if not isinstance(code, Sym) else '<symbolic>')
+    e.sym_args = (code,)
+    raise PyExc(e)
+
+
+import sys as _sys
+SPECIAL[_sys.exit] = sp_sys_exit
+SPECIAL[exit] = sp_sys_exit if False else SPECIAL.get(exit, sp_sys_exit)
+
 import re as _re
 
 
